@@ -30,7 +30,10 @@ for i, z in enumerate(zones):
     e.add("uid", "u%d" % i)
     e.add("summary", "s", parameters={"X-B": "1", "ALTREP": "http://a", "LANGUAGE": "en"})
     e.add("dtstart", datetime.datetime(2020, 1, 1 + i, 10, tzinfo=zoneinfo.ZoneInfo(z)))
-    e.add("categories", ["b", "a"])
+    e.add("categories", ["work", "errand", "family", "work", "home", "b", "a"])
+    e.add("rdate", [datetime.datetime(2020, 2, 1 + i, 10), datetime.datetime(2020, 2, 1 + i, 10), datetime.datetime(2020, 1, 5, 9)])
+    e.add("attendee", "mailto:a@x", parameters={"MEMBER": ["m2", "m1", "m2"], "CN": "n", "ROLE": "r", "DELEGATED-TO": ["d2", "d1"]})
+    e.add("resources", ["r2", "r1", "r2"])
     c.add_component(e)
 c.add_missing_timezones()
 sys.stdout.write(hashlib.sha256(c.to_ical()).hexdigest())
